@@ -36,7 +36,8 @@ RULE = ('2-3 probes (function/class/method, any registration API, optional allow
 ASSUMPTIONS = ['only calls that succeed are generated (a failed call is not covered by "called")',
                'a parameter re-bound from a literal to a non-literal value is not generated',
                'references and macros count as literally representable (their text re-parses)',
-               'singletons are left to C18']
+               'singleton *sharing* is C18; here gin.singleton is one more configurable whose calls and '
+               'constructor parameter must be recorded']
 FLOORS = {'nontrivial': 0.05, 'replayed': 0.3, 'value:nonliteral': 0.05, 'lists': 0.2,
           'nested-evaluation': 0.15, 'macro-used': 0.1, 'caller-and-gin': 0.1}
 TECHNIQUE = ('model-based property testing over call histories: operative-record reference model vs '
@@ -120,6 +121,8 @@ def check_case(case):
       return '%' + v[1]
     if k == 'const':
       return '%' + CONST
+    if k == 'single':
+      return '@' + v[1] + '/singleton()'
     if k == 'list':
       return '[' + ', '.join(text_of(x) for x in v[1]) + ']'
     raise ValueError(v)
@@ -148,6 +151,8 @@ def check_case(case):
       return Ref('%', v[1], True)
     if k == 'const':
       return Ref('%', CONST, True)
+    if k == 'single':
+      return Ref('@', v[1] + '/singleton', True)
     if k == 'list':
       return [expected_obj(x) for x in v[1]]
     raise ValueError(v)
@@ -155,24 +160,44 @@ def check_case(case):
   # ---- configuration --------------------------------------------------------------------
   macros = {}
   for name, v in case['macros']:
-    gin.parse_config(f'{name} = {text_of(v)}')
     macros[name] = v
   cfg = [dict() for _ in builts]       # per probe: {(scope, param): VALUE}
   for scope, pi, param, v in case['bindings']:
     b = builts[pi]
     if not permitted(b.shape, param):
       continue
-    key = (scope, b.selector, param)
-    if has_nonlit(v):
-      gin.bind_parameter(key, live(v))
-      labels.add('value:nonliteral')
-    else:
-      gin.parse_config(f"{scope + '/' if scope else ''}{b.selector}.{param} = {text_of(v)}")
     cfg[pi][(scope, param)] = v
     labels.add('value:' + v[0])
+  n_prod = len(builts) - 1               # the producer: callable without arguments
+
+  def singles(v):
+    if v[0] == 'single':
+      yield v[1]
+    elif v[0] == 'list':
+      for x in v[1]:
+        yield from singles(x)
+
+  def apply_config():
+    """Binds the current state of `macros` and `cfg` (at the start and again after a clear)."""
+    for name, v in macros.items():
+      gin.parse_config(f'{name} = {text_of(v)}')
+    snames = set()
+    for pi, b in enumerate(builts):
+      for (scope, param), v in cfg[pi].items():
+        if has_nonlit(v):
+          gin.bind_parameter((scope, b.selector, param), live(v))
+          labels.add('value:nonliteral')
+        else:
+          gin.parse_config(f"{scope + '/' if scope else ''}{b.selector}.{param} = {text_of(v)}")
+        snames |= set(singles(v))
+    for sname in sorted(snames):
+      gin.parse_config(f'{sname}/singleton.constructor = @{written(n_prod)}')
+
+  apply_config()
 
   # ---- the record model -----------------------------------------------------------------
   record = {}      # (scope_str, ('probe', i) | ('macro',) | ('const',)) -> {param: VALUE}
+  constructed = set()    # singleton names whose object exists
   rebound = False
   all_representable = [True]
 
@@ -195,6 +220,14 @@ def check_case(case):
         labels.add('macro-used')
     elif k == 'const':
       record.setdefault((CONST, ('const',)), {})
+    elif k == 'single':
+      # gin.singleton is a configurable like any other: it is called under the scope naming the
+      # singleton, Gin supplies its constructor, and the first use calls that constructor there
+      record.setdefault((v[1], ('singleton',)), {})['constructor'] = ['ref', '', n_prod, False]
+      labels.add('singleton-used')
+      if v[1] not in constructed:
+        constructed.add(v[1])
+        run(n_prod, [v[1]], set())
     elif k == 'list':
       for x in v[1]:
         evaluate_tree(x, active)
@@ -214,7 +247,7 @@ def check_case(case):
         evaluate_tree(v, active)
         if v[0] != 'lit' and (v[0] != 'list' or any(x[0] != 'lit' for x in v[1])):
           labels.add('nested-evaluation' if any(
-              t in repr(v) for t in ("'mac'", "'ref'")) else 'const-evaluation')
+              t in repr(v) for t in ("'mac'", "'ref'", "'single'")) else 'const-evaluation')
 
   def normalise(x):
     if isinstance(getattr(x, 'rec', None), dict):      # instance of a class probe
@@ -238,6 +271,17 @@ def check_case(case):
   caller_sup, gin_sup = set(), set()
   n_calls = 0
   for step in case['steps']:
+    if step[0] == 'clear':
+      # the whole configuration is cleared and made again: what was called before the clear is no
+      # longer part of the operative config
+      gin.clear_config()
+      apply_config()
+      record.clear()
+      constructed.clear()
+      del performed[:], received[:]
+      rebound = False
+      labels.add('clear-and-configure-again')
+      continue
     if step[0] in ('rebind', 'rebind_key'):
       candidates = sorted((pi, k) for pi in range(len(cfg)) for k, v in cfg[pi].items()
                           if v[0] == 'lit')
@@ -321,7 +365,7 @@ def check_case(case):
       raise Violation('operative-config-does-not-parse', f'{type(e).__name__}: {e}\n{text}')
 
   # every printed selector must resolve, by unique dotted suffix, to one full name of this case
-  full_names = {}
+  full_names = {'gin.singleton': ('singleton',)}
   for i, b in enumerate(builts):
     full_names[b.selector] = ('probe', i)
     if b.shape['kind'] == 'method':
@@ -341,9 +385,9 @@ def check_case(case):
 
   exp_sections, exp_bindings, exp_macros = set(), {}, {}
   for (scope, who), params in record.items():
-    if who[0] in ('probe', 'host'):
-      pname = (printed_name(who[1]) if who[0] == 'probe'
-               else builts[who[1]].selector.rsplit('.', 1)[0])
+    if who[0] in ('probe', 'host', 'singleton'):
+      pname = (printed_name(who[1]) if who[0] == 'probe' else 'gin.singleton'
+               if who[0] == 'singleton' else builts[who[1]].selector.rsplit('.', 1)[0])
       exp_sections.add((scope + '/' if scope else '') + pname)
       for p, v in params.items():
         if representable(v):
@@ -467,6 +511,7 @@ def strategy(draw):
           lambda t: ['ref', t[0], t[1], t[2]]))
       opts.append(st.tuples(st.sampled_from(['', 's']), st.just(n - 1), st.just(True)).map(
           lambda t: ['ref', t[0], t[1], t[2]]))
+      opts.append(st.sampled_from(['sg1', 'sg1', 'sg2']).map(lambda sn: ['single', sn]))
     if depth > 0:
       opts.append(st.lists(value(pi, depth - 1), min_size=1, max_size=3).map(
           lambda xs: ['list', xs]))
@@ -484,6 +529,9 @@ def strategy(draw):
   for _ in range(draw(st.integers(2, 7))):
     if draw(st.integers(0, 7)) == 0:
       steps.append(['rebind', draw(st.integers(0, 9)), draw(_lit | st.just('<<EQUAL>>'))])
+      continue
+    if steps and draw(st.integers(0, 9)) == 0:
+      steps.append(['clear'])
       continue
     pi = draw(st.sampled_from([0, 0, 0, 1, n - 1]))
     named = G.named_params(probes[pi % n])
